@@ -10,7 +10,7 @@ the compile verdict (a cfg-disabled function must not leave a dangling method)."
 import json
 import os
 
-from lib import vf
+from lib import vf, expand
 
 MARK = {"doc": "/// MARKER-DOC", "lint": "#[allow(unused_variables)]", "cfgon": "#[cfg(all())]", "cfgoff": "#[cfg(any())]",
         "tool": "#[rustfmt::skip]", "inert": "#[must_use]", "cfgattr": "#[cfg_attr(all(), allow(unused_variables))]"}
@@ -109,7 +109,8 @@ def main():
         crate.add_case(c["case"], render(c["in"]))
     dump = os.path.join(chk.work, "dump")
     dropped, first_dump, iters = crate.build(mode="check", dump=dump, max_iter=20)
-    by_case, _ = vf.records_by_case(chk, first_dump)
+    by_case, allrecs = vf.records_by_case(chk, first_dump)
+    expand.conformance(chk, allrecs, "attrs")         # attribute placements against the pipeline model (spec/Expand.tla)
     events = []
     for c in cases:
         cid = c["case"]
